@@ -168,6 +168,105 @@ let handle_ur = function
       Printf.sprintf "%s %s %s" id (hex_of_bytes out) (show_rend fin)
   | _ -> failwith "bad UR line"
 
+
+(* ---------- T: the streaming transcoder ----------
+   T <id> <fails: step:id,...|-> <script tokens in prefix order>
+   S,<method>,<payload> | F,<e> | Q,<hint>,<tail>,<post>,<n> <n scripts> | M,<hint>,<tail>,<post>,<n> <2n scripts> *)
+
+let vmethod_of_int = function
+  | 0 -> VUnit | 1 -> VBool | 2 -> VI8 | 3 -> VI16 | 4 -> VI32 | 5 -> VI64 | 6 -> VI128
+  | 7 -> VU8 | 8 -> VU16 | 9 -> VU32 | 10 -> VU64 | 11 -> VU128 | 12 -> VF32 | 13 -> VF64
+  | 14 -> VChar | 15 -> VStr | _ -> VBytes
+
+let int_of_smethod = function
+  | SUnit -> 0 | SBool -> 1 | SI8 -> 2 | SI16 -> 3 | SI32 -> 4 | SI64 -> 5 | SI128 -> 6
+  | SU8 -> 7 | SU16 -> 8 | SU32 -> 9 | SU64 -> 10 | SU128 -> 11 | SF32 -> 12 | SF64 -> 13
+  | SChar -> 14 | SStr -> 15 | SBytes -> 16
+
+(* payloads are 64-bit: go through Int64/strings for values above max_int *)
+let n_of_u64_string (s : string) : n =
+  let rec go acc i =
+    if i >= String.length s then acc
+    else go (N.add (N.mul acc (n_of_int 10)) (n_of_int (Char.code s.[i] - 48))) (i + 1)
+  in
+  go N0 0
+
+let rec string_of_n (x : n) : string =
+  let ten = n_of_int 10 in
+  let rec go x acc =
+    if x = N0 then acc
+    else go (N.div x ten) (string_of_int (int_of_n (N.modulo x ten)) ^ acc)
+  in
+  ignore string_of_n; if x = N0 then "0" else go x ""
+
+let optn s = if s = "-" then None else Some (n_of_u64_string s)
+let optnat s = if s = "-" then None else Some (nat_of_int (int_of_string s))
+
+let rec parse_script (toks : string list) : dscript * string list =
+  match toks with
+  | [] -> failwith "script: out of tokens"
+  | t :: rest -> (
+      match String.split_on_char ',' t with
+      | [ "S"; m; p ] -> (DScalar (vmethod_of_int (int_of_string m), n_of_u64_string p), rest)
+      | [ "F"; e ] -> (DFail (nat_of_int (int_of_string e)), rest)
+      | [ "Q"; h; tl; po; n ] ->
+          let rec kids k toks acc =
+            if k = 0 then (List.rev acc, toks)
+            else
+              let s, toks' = parse_script toks in
+              kids (k - 1) toks' (s :: acc)
+          in
+          let els, rest' = kids (int_of_string n) rest [] in
+          let tail = match optnat tl with None -> TEnd | Some e -> TErr e in
+          (DSeq (optn h, els, tail, optnat po), rest')
+      | [ "M"; h; tl; po; n ] ->
+          let rec kids k toks acc =
+            if k = 0 then (List.rev acc, toks)
+            else
+              let a, toks' = parse_script toks in
+              let b, toks'' = parse_script toks' in
+              kids (k - 1) toks'' ((a, b) :: acc)
+          in
+          let es, rest' = kids (int_of_string n) rest [] in
+          let tail = match optnat tl with None -> TEnd | Some e -> TErr e in
+          (DMap (optn h, es, tail, optnat po), rest')
+      | _ -> failwith ("bad script token " ^ t))
+
+let show_hint = function None -> "-" | Some h -> string_of_n h
+
+let show_call = function
+  | CScalar (m, p) -> Printf.sprintf "s%d:%s" (int_of_smethod m) (string_of_n p)
+  | CSeq h -> "q" ^ show_hint h
+  | CElemPre -> "e<" | CElemPost -> "e>" | CSeqEnd -> "Q"
+  | CMap h -> "m" ^ show_hint h
+  | CKeyPre -> "k<" | CKeyPost -> "k>" | CValuePre -> "v<" | CValuePost -> "v>" | CMapEnd -> "M"
+
+let handle_t = function
+  | id :: fails :: toks ->
+      let tbl = Hashtbl.create 8 in
+      List.iter
+        (fun kv ->
+          match String.split_on_char ':' kv with
+          | [ k; v ] -> Hashtbl.replace tbl (int_of_string k) (int_of_string v)
+          | _ -> ())
+        (split_on ',' fails);
+      let failsf (n : nat) : nat option =
+        match Hashtbl.find_opt tbl (int_of_nat n) with Some v -> Some (nat_of_int v) | None -> None
+      in
+      let sc, _ = parse_script toks in
+      let ss, o = transcode failsf false sc in
+      let d = function DE i -> string_of_int (int_of_nat i) | DSyn -> "syn" in
+      let s = function SE i -> string_of_int (int_of_nat i) | SSyn -> "syn" in
+      let out =
+        match o with
+        | OutOk -> "ok"
+        | OutErr (ErrDe e) -> "de:" ^ d e
+        | OutErr (ErrSer (se, de)) -> "ser:" ^ s se ^ ":" ^ d de
+        | OutPanic _ -> "panic"
+      in
+      Printf.sprintf "%s %s | %s" id out (String.concat " " (List.rev_map show_call ss.calls))
+  | _ -> failwith "bad T line"
+
 let () =
   try
     while true do
@@ -178,6 +277,7 @@ let () =
           match f with
           | "H" :: rest -> handle_h rest
           | "MS" :: rest -> handle_ms rest
+          | "T" :: rest -> handle_t rest
           | "UD" :: rest -> handle_ud rest
           | "UR" :: rest -> handle_ur rest
           | "MT" :: rest -> handle_mt rest
